@@ -6,6 +6,8 @@ package pfcpiface
 
 import (
 	"encoding/binary"
+	"math"
+	"math/bits"
 	"net"
 	"strconv"
 	"strings"
@@ -108,7 +110,16 @@ func maxUint64(x, y uint64) uint64 {
 
 // Returns the bandwidth delay product for a given rate in kbps and duration in ms.
 func calcBurstSizeFromRate(kbps uint64, ms uint64) uint64 {
-	return uint64((float64(kbps) * 1000 / 8) * (float64(ms) / 1000))
+	// bytes = kbps * 1000 / 8 * ms / 1000, in integers: floating point lost up
+	// to a byte (100000 kbps x 18 ms gave 224999 instead of 225000).
+	hi, lo := bits.Mul64(kbps*125, ms)
+	if hi >= 1000 {
+		return math.MaxUint64
+	}
+
+	bytes, _ := bits.Div64(hi, lo, 1000)
+
+	return bytes
 }
 
 // MustParseStrIP : parse IP address from config and fail on error.
